@@ -205,3 +205,25 @@ def addLeafStoreFault (H : HashAlg α) (n : Nat) (t : AOT α) (db : TreeDb α) (
     { t with cache := (addLoop H idx n 0 t.cache leaf []).1 }
 
 end Aggkit
+
+namespace Aggkit
+variable {α : Type} [DecidableEq α]
+
+/-- in-memory effect of an `AddLeaf` whose `k`-th storage statement (reads included) fails.
+    Statement order: [getLastRoot, then one getRHTNode per level — only when the cache must be rebuilt],
+    storeRoot, storeNodes×n. Returns `none` when `k` is past the last statement (no fault happens). -/
+def addLeafFaultAt (H : HashAlg α) (n : Nat) (t : AOT α) (db : TreeDb α) (idx : Nat) (leaf : α) (k : Nat) :
+    Option (AOT α) :=
+  let needInit := decide ((idx : Int) ≠ t.lastIndex + 1)
+  let reads := if needInit then (match getLastRoot db with | some _ => 1 + n | none => 1) else 0
+  if k < reads then
+    -- since the F14 fix `initCache` assigns lastIndex only after the walk succeeded: nothing changes
+    some t
+  else if k < reads + 1 + n then
+    -- the reads went through; if the index is wrong AddLeaf returns before any write statement
+    match (if needInit then initCache H n db else .ok t) with
+    | .error _ => none
+    | .ok t1 => if (idx : Int) ≠ t1.lastIndex + 1 then none else some (addLeafStoreFault H n t db idx leaf)
+  else none
+
+end Aggkit
